@@ -632,6 +632,39 @@ func (pv *Prover) facts(b *ssa.BasicBlock) *factSet {
 				}
 			}
 		}
+		// a condition that fixes the edge by which a merge was entered fixes every phi of that merge:
+		// integers are equal to, slices and strings as long as, their value on that edge
+		if q, excluded := guardPhi(guards[i], 0); q != nil {
+			k, n := -1, 0
+			for j, e := range q.Edges {
+				if !excluded(e, q.Block().Preds[j]) {
+					k = j
+					n++
+				}
+			}
+			if n == 1 {
+				for _, in := range q.Block().Instrs {
+					ph, isPhi := in.(*ssa.Phi)
+					if !isPhi {
+						break
+					}
+					e := ph.Edges[k]
+					switch ph.Type().Underlying().(type) {
+					case *types.Slice:
+						d := pv.lenForm("len", ph).Add(pv.lenForm("len", e), -1)
+						fs.cons = append(fs.cons, d, d.Scale(-1))
+					case *types.Basic:
+						if _, _, isInt := intInfo(ph.Type()); isInt {
+							d := pv.Form(ph).Add(pv.Form(e), -1)
+							fs.cons = append(fs.cons, d, d.Scale(-1))
+						} else if b := ph.Type().Underlying().(*types.Basic); b.Info()&types.IsString != 0 {
+							d := pv.lenForm("len", ph).Add(pv.lenForm("len", e), -1)
+							fs.cons = append(fs.cons, d, d.Scale(-1))
+						}
+					}
+				}
+			}
+		}
 	}
 	return fs
 }
